@@ -48,7 +48,9 @@ def scope(model: Model) -> t.List[FuncInfo]:
     for q in EXTRA_SCOPE:
         fs[q] = model.func(q)
     # accessors of the dataclass base that run while a value is merely read (serialised, compared, printed)
-    for nm in ('__getattr__', '__getattribute__', '__repr__', '__eq__', '__hash__', '__iter__', '__len__'):
+    for nm in ('__getattr__', '__getattribute__', '__repr__', '__eq__', '__hash__', '__iter__', '__len__',
+               # ... or written, copied, listed: none of these may change the instance they are called on
+               'write_json', 'write_yaml', 'into_data', 'dict', '__copy__', '__deepcopy__', '__replace__'):
         g = model.functions.get(f'pane.classes.PaneBase.{nm}')
         if g is not None:
             fs[g.qualname] = g
